@@ -329,7 +329,14 @@ fn gen_body(r: &mut Rng, sc: &mut Scope, depth: usize, budget: &mut usize, calle
                 }
             }
         };
+        let bare_if = gen::ends_without_else(&node);
         out.push(node);
+        if bare_if && *budget > 0 && r.chance(1, 3) {
+            // text that begins like an else branch but is none: rendered as it stands, leading white space included
+            *budget -= 1;
+            let t = *r.pick(&[" elsewhere", "\nelse-ish", " else.", "  elsewise", "\telse(x)", " else", " @* c *@ elsewhere"]);
+            out.push(Node::Text(t.as_bytes().to_vec()));
+        }
     }
     out
 }
